@@ -694,6 +694,8 @@ def main():
         "average; monitored against an Euler-angle product quadrature that is exact for degree 4",
     ]
     chk.prove()
+    import translate
+    translate.static_tie(cm, chk, PID, cm.REPO)      # second, static tie: model regenerated from the current source
     if args.replay:
         rep = json.load(open(args.replay))
         cases = [rep["input"]] if isinstance(rep.get("input"), dict) and "kind" in rep["input"] else []
